@@ -668,3 +668,484 @@ Proof.
   rewrite forallb_forall in W. apply W, Hv.
 Qed.
 
+(* ---------- E: truncation (cutting the input at the end of the consumed span) ---------- *)
+
+Lemma ex_cons (P : bytes -> Prop) c s r :
+  (exists u, s = u ++ r /\ P (c :: u)) -> exists u, c :: s = u ++ r /\ P u.
+Proof. intros (u & -> & H). exists (c :: u). split; [reflexivity | exact H]. Qed.
+
+Lemma scan_str_trunc s : forall k r, scan_str s = Some (k, r) ->
+  exists u, s = u ++ r /\ scan_str u = Some (k, []).
+Proof.
+  induction s as [s IH] using bytes_len_ind. intros k r H.
+  destruct s as [|c s1]; [discriminate|]. rewrite scan_str_cons in H.
+  repeat step H; inv_some H.
+  all: repeat match goal with
+       | E : scan_str ?s' = Some (_, _) |- _ =>
+           apply IH in E; [destruct E as (? & -> & E) | cbn [length]; lia]
+       end.
+  all: repeat apply ex_cons.
+  all: first [ exists []; split; [reflexivity|] | eexists; split; [reflexivity|] ].
+  all: rewrite scan_str_cons; repeat (rw_eqs; cbv beta iota); reflexivity.
+Qed.
+
+Lemma scan_str_valid_trunc s k r : scan_str_valid s = Some (k, r) ->
+  exists u, s = u ++ r /\ scan_str_valid u = Some (k, []).
+Proof.
+  intro H. apply scan_str_valid_inv in H as [H U]. apply scan_str_trunc in H as (u & -> & H).
+  exists u. split; [reflexivity|]. unfold scan_str_valid. rewrite H, U. reflexivity.
+Qed.
+
+Lemma scan_number_trunc_cons c s1 l r : scan_number (c :: s1) = Some (l, r) ->
+  exists u, s1 = u ++ r /\ scan_number (c :: u) = Some (l, []).
+Proof.
+  intro H. pose proof (scan_number_trunc _ _ _ H) as T.
+  apply scan_number_inv in H as (S & _ & _ & (c0 & t0 & E & _) & _).
+  rewrite E in S, T. cbn [app] in S. injection S as -> ->. exists t0. split; [reflexivity | exact T].
+Qed.
+
+Lemma skip_ws_pre w c u : forallb is_json_ws w = true -> is_json_ws c = false ->
+  skip_ws (w ++ c :: u) = c :: u.
+Proof.
+  intros Hw Hc. unfold skip_ws. apply drop_while_app_stop; [exact Hw | cbn; rewrite Hc; reflexivity].
+Qed.
+
+Lemma ws_not_num_cont b : is_json_ws b = true -> num_cont b = false.
+Proof. intro H; byte_fact b H. Qed.
+
+Lemma ok_follow_pre w c X : forallb is_json_ws w = true -> num_cont c = false ->
+  ok_follow (w ++ c :: X) = true.
+Proof.
+  intros Hw Hc. destruct w as [|b w]; cbn.
+  - rewrite Hc. reflexivity.
+  - cbn in Hw. apply andb_true_iff in Hw as [Hb _]. rewrite (ws_not_num_cont b Hb). reflexivity.
+Qed.
+
+Lemma parse_value_ws_ne f d u x : parse_value f d u = Some x -> skip_ws u <> [].
+Proof.
+  destruct f as [|f]; [discriminate|]. rewrite parse_value_S.
+  destruct (skip_ws u); [discriminate | intros _; discriminate].
+Qed.
+Lemma parse_elems_ws_ne f d u x : parse_elems f d u = Some x -> skip_ws u <> [].
+Proof.
+  destruct f as [|f]; [discriminate|]. rewrite parse_elems_S.
+  destruct (parse_value f d u) eqn:E; [|discriminate]. intros _. apply (parse_value_ws_ne _ _ _ _ E).
+Qed.
+Lemma parse_members_ws_ne f d u x : parse_members f d u = Some x -> skip_ws u <> [].
+Proof.
+  destruct f as [|f]; [discriminate|]. rewrite parse_members_S.
+  destruct (skip_ws u); [discriminate | intros _; discriminate].
+Qed.
+
+Lemma skip_ws_trunc_head u r c s1 : skip_ws (u ++ r) = c :: s1 -> skip_ws u <> [] ->
+  exists u1, skip_ws u = c :: u1.
+Proof.
+  intros H Hne. destruct (skip_ws u) as [|c' u1] eqn:E; [congruence|].
+  rewrite (skip_ws_app_cons _ _ _ r E) in H. injection H as -> _. exists u1. reflexivity.
+Qed.
+
+(* skip_ws s = c :: s1  (s a variable)  ~~>  s := w ++ c :: s1  with w whitespace, c not *)
+Ltac ws_norm' :=
+  repeat match goal with
+  | E : skip_ws ?s = ?c :: ?s1 |- _ =>
+      is_var s;
+      let Hw := fresh "Hw" in pose proof (ws_eq _ _ _ E) as Hw;
+      let Hc := fresh "Hc" in pose proof (skip_ws_hd _ _ _ E) as Hc;
+      let Ha := fresh "Ha" in pose proof (ws_prefix_all s) as Ha;
+      clear E;
+      let w := fresh "w" in set (w := ws_prefix s) in *; clearbody w; subst s
+  end.
+
+Ltac wit := match goal with |- exists t, ?w ++ ?c :: ?u ++ ?r = t ++ ?r /\ _ => exists (w ++ c :: u) end.
+
+Lemma parse_trunc_all f :
+  (forall d s v r, parse_value f d s = Some (v, r) ->
+      exists t, s = t ++ r /\ parse_value f d t = Some (v, [])) /\
+  (forall d s v r, parse_elems f d s = Some (v, r) ->
+      exists t, s = t ++ r /\ parse_elems f d t = Some (v, [])) /\
+  (forall d s v r, parse_members f d s = Some (v, r) ->
+      exists t, s = t ++ r /\ parse_members f d t = Some (v, [])).
+Proof.
+  induction f as [|f (IHv & IHe & IHm)]; [repeat split; intros; discriminate|].
+  repeat apply conj; intros d s v r H.
+  - rewrite parse_value_S in H. repeat step H; inv_some H.
+    (* literals *)
+    all: try match goal with E : starts_with ?p _ = Some _ |- _ =>
+           apply starts_with_split in E; subst; ws_norm'; wit;
+           (split; [list_solve|]); rewrite parse_value_S, skip_ws_pre by assumption;
+           cbv beta iota; rw_eqs; rewrite ?skip_ws_pre by assumption; rw_eqs; reflexivity end.
+    (* strings *)
+    all: try match goal with E : scan_str_valid _ = Some _ |- _ =>
+           apply scan_str_valid_trunc in E as (? & -> & E); ws_norm'; wit;
+           (split; [list_solve|]); rewrite parse_value_S, skip_ws_pre by assumption;
+           cbv beta iota; rw_eqs; rewrite ?skip_ws_pre by assumption; rw_eqs; reflexivity end.
+    (* numbers *)
+    all: try match goal with E : scan_number _ = Some _ |- _ =>
+           apply scan_number_trunc_cons in E as (? & -> & E); ws_norm'; wit;
+           (split; [list_solve|]); rewrite parse_value_S, skip_ws_pre by assumption;
+           cbv beta iota; rw_eqs; rewrite ?skip_ws_pre by assumption; rw_eqs; reflexivity end.
+    (* non-empty containers *)
+    all: try match goal with E : parse_elems _ _ _ = Some _, E' : skip_ws _ = _ :: _ |- _ =>
+           apply IHe in E as (? & -> & E);
+           destruct (skip_ws_trunc_head _ _ _ _ E' (parse_elems_ws_ne _ _ _ _ E)) as [u1 Eu];
+           clear E'; ws_norm'; wit;
+           (split; [list_solve|]); rewrite parse_value_S, skip_ws_pre by assumption;
+           cbv beta iota; rw_eqs; rewrite ?skip_ws_pre by assumption; rw_eqs; reflexivity end.
+    all: try match goal with E : parse_members _ _ _ = Some _, E' : skip_ws _ = _ :: _ |- _ =>
+           apply IHm in E as (? & -> & E);
+           destruct (skip_ws_trunc_head _ _ _ _ E' (parse_members_ws_ne _ _ _ _ E)) as [u1 Eu];
+           clear E'; ws_norm'; wit;
+           (split; [list_solve|]); rewrite parse_value_S, skip_ws_pre by assumption;
+           cbv beta iota; rw_eqs; rewrite ?skip_ws_pre by assumption; rw_eqs; reflexivity end.
+    (* empty containers *)
+    all: ws_norm'.
+    all: match goal with |- exists t, ?w ++ ?c :: ?w1 ++ ?c2 :: _ = _ /\ _ => exists (w ++ c :: w1 ++ [c2]) end.
+    all: (split; [list_solve|]); rewrite parse_value_S, skip_ws_pre by assumption.
+    all: cbv beta iota; rw_eqs; rewrite skip_ws_pre by assumption; rw_eqs; reflexivity.
+  - rewrite parse_elems_S in H. repeat step H; inv_some H.
+    all: match goal with E : parse_value _ _ _ = Some _ |- _ => apply IHv in E as (u & -> & Eu) end.
+    all: try match goal with E : parse_elems _ _ _ = Some _ |- _ => apply IHe in E as (u1 & -> & Eu1) end.
+    all: ws_norm'; beqb_norm.
+    + exists (u ++ w ++ x2c :: u1). split; [list_solve|].
+      rewrite parse_elems_S.
+      rewrite (parse_value_extend _ _ _ _ _ (w ++ x2c :: u1) Eu)
+        by (right; apply ok_follow_pre; [assumption | reflexivity]).
+      cbn [app]. rewrite skip_ws_pre by assumption. cbv beta iota. rewrite Eu1. reflexivity.
+    + exists (u ++ w ++ [x5d]). split; [list_solve|].
+      rewrite parse_elems_S.
+      rewrite (parse_value_extend _ _ _ _ _ (w ++ [x5d]) Eu)
+        by (right; apply ok_follow_pre; [assumption | reflexivity]).
+      cbn [app]. rewrite skip_ws_pre by assumption. reflexivity.
+  - rewrite parse_members_S in H. repeat step H; inv_some H.
+    all: match goal with E : parse_value _ _ _ = Some _ |- _ => apply IHv in E as (uv & -> & Euv) end.
+    all: match goal with E : scan_str_valid _ = Some _ |- _ =>
+           apply scan_str_valid_trunc in E as (uk & -> & Euk) end.
+    all: try match goal with E : parse_members _ _ _ = Some _ |- _ => apply IHm in E as (um & -> & Eum) end.
+    all: ws_norm'; beqb_norm.
+    + exists (w1 ++ x22 :: uk ++ w0 ++ x3a :: uv ++ w ++ x2c :: um). split; [list_solve|].
+      rewrite parse_members_S. rewrite skip_ws_pre by assumption. cbv beta iota.
+      rewrite (beqb_refl x22).
+      rewrite (scan_str_valid_extend _ _ _ (w0 ++ x3a :: uv ++ w ++ x2c :: um) Euk). cbn [app].
+      rewrite skip_ws_pre by assumption. cbv beta iota. rewrite (beqb_refl x3a).
+      rewrite (parse_value_extend _ _ _ _ _ (w ++ x2c :: um) Euv)
+        by (right; apply ok_follow_pre; [assumption | reflexivity]).
+      cbn [app]. rewrite skip_ws_pre by assumption. cbv beta iota. rewrite Eum. reflexivity.
+    + exists (w1 ++ x22 :: uk ++ w0 ++ x3a :: uv ++ w ++ [x7d]). split; [list_solve|].
+      rewrite parse_members_S. rewrite skip_ws_pre by assumption. cbv beta iota.
+      rewrite (beqb_refl x22).
+      rewrite (scan_str_valid_extend _ _ _ (w0 ++ x3a :: uv ++ w ++ [x7d]) Euk). cbn [app].
+      rewrite skip_ws_pre by assumption. cbv beta iota. rewrite (beqb_refl x3a).
+      rewrite (parse_value_extend _ _ _ _ _ (w ++ [x7d]) Euv)
+        by (right; apply ok_follow_pre; [assumption | reflexivity]).
+      cbn [app]. rewrite skip_ws_pre by assumption. reflexivity.
+Qed.
+
+Lemma parse_value_trunc f d s v r : parse_value f d s = Some (v, r) ->
+  forall t, s = t ++ r -> parse_value f d t = Some (v, []).
+Proof.
+  intros H t Ht. apply (proj1 (parse_trunc_all f)) in H as (u & Hu & H).
+  rewrite Ht in Hu. apply app_inv_tail in Hu. subst u. exact H.
+Qed.
+Lemma parse_elems_trunc f d s v r : parse_elems f d s = Some (v, r) ->
+  forall t, s = t ++ r -> parse_elems f d t = Some (v, []).
+Proof.
+  intros H t Ht. apply (proj1 (proj2 (parse_trunc_all f))) in H as (u & Hu & H).
+  rewrite Ht in Hu. apply app_inv_tail in Hu. subst u. exact H.
+Qed.
+Lemma parse_members_trunc f d s v r : parse_members f d s = Some (v, r) ->
+  forall t, s = t ++ r -> parse_members f d t = Some (v, []).
+Proof.
+  intros H t Ht. apply (proj2 (proj2 (parse_trunc_all f))) in H as (u & Hu & H).
+  rewrite Ht in Hu. apply app_inv_tail in Hu. subst u. exact H.
+Qed.
+
+(* ---------- a consumed span never ends in whitespace ---------- *)
+
+Definition numch (c : byte) : bool := is_digit c || is_dot c || is_e c || is_sign c.
+
+Lemma numch_nws c : numch c = true -> is_json_ws c = false.
+Proof. intro H; byte_fact c H. Qed.
+Lemma digit_numch c : is_digit c = true -> numch c = true.
+Proof. intro H. unfold numch. rewrite H. reflexivity. Qed.
+
+Lemma forallb_impl (p q : byte -> bool) l :
+  (forall x, p x = true -> q x = true) -> forallb p l = true -> forallb q l = true.
+Proof.
+  intro I. induction l as [|x l IH]; cbn; [reflexivity|]. intro H.
+  apply andb_true_iff in H as [H1 H2]. rewrite (I x H1), (IH H2). reflexivity.
+Qed.
+
+Lemma scan_frac_chars s a r : scan_frac s = Some (a, r) -> forallb numch a = true.
+Proof.
+  unfold scan_frac. destruct s as [|c s']; [intro H; inv_some H; reflexivity|].
+  destruct (beqb c x2e) eqn:E; [|intro H; inv_some H; reflexivity].
+  apply beqb_true in E. subst c.
+  destruct (take_while is_digit s') as [|b l] eqn:Et; [discriminate|]. intro H; inv_some H.
+  pose proof (take_while_all is_digit s') as TA. rewrite Et in TA.
+  change (forallb numch (x2e :: b :: l)) with (forallb numch (b :: l)).
+  apply (forallb_impl is_digit numch _ digit_numch TA).
+Qed.
+
+Lemma scan_exp_chars s a r : scan_exp s = Some (a, r) -> forallb numch a = true.
+Proof.
+  unfold scan_exp. destruct s as [|c s']; [intro H; inv_some H; reflexivity|].
+  destruct (beqb c x65 || beqb c x45) eqn:E; [|intro H; inv_some H; reflexivity].
+  assert (Hc : numch c = true).
+  { unfold numch. fold (is_e c) in E. rewrite E. destruct (is_digit c), (is_dot c); reflexivity. }
+  destruct s' as [|g t]; [discriminate|].
+  destruct (beqb g x2b || beqb g x2d) eqn:Eg.
+  - destruct (take_while is_digit t) as [|b l] eqn:Et; [discriminate|]. intro H; inv_some H.
+    pose proof (take_while_all is_digit t) as TA. rewrite Et in TA.
+    assert (Hg : numch g = true).
+    { unfold numch. fold (is_sign g) in Eg. rewrite Eg. destruct (is_digit g), (is_dot g), (is_e g); reflexivity. }
+    cbn [app forallb]. rewrite Hc, Hg. cbn [andb].
+    exact (forallb_impl is_digit numch (b :: l) digit_numch TA).
+  - destruct (take_while is_digit (g :: t)) as [|b l] eqn:Et; [discriminate|]. intro H; inv_some H.
+    pose proof (take_while_all is_digit (g :: t)) as TA. rewrite Et in TA.
+    cbn [app forallb]. rewrite Hc. cbn [andb].
+    exact (forallb_impl is_digit numch (b :: l) digit_numch TA).
+Qed.
+
+Lemma scan_number_chars s l r : scan_number s = Some (l, r) -> forallb numch (numlex_bytes l) = true.
+Proof.
+  unfold scan_number. intro H.
+  assert (G : forall neg s0, match scan_int s0 with
+            | None => None
+            | Some (ip, s1) => match scan_frac s1 with
+               | None => None
+               | Some (fp, s2) => match scan_exp s2 with
+                  | None => None
+                  | Some (ep, s3) => Some ({| nl_neg := neg; nl_int := ip; nl_frac := fp; nl_exp := ep |}, s3)
+                  end end end = Some (l, r) -> forallb numch (numlex_bytes l) = true).
+  { intros neg s0 G. repeat step G. inv_some G.
+    match goal with E : scan_int _ = Some _ |- _ => apply scan_int_inv in E as (_ & _ & Ai & _) end.
+    match goal with E : scan_frac _ = Some _ |- _ => apply scan_frac_chars in E end.
+    match goal with E : scan_exp _ = Some _ |- _ => apply scan_exp_chars in E end.
+    unfold numlex_bytes. cbn [nl_neg nl_int nl_frac nl_exp]. rewrite !forallb_app.
+    rewrite (forallb_impl is_digit numch _ digit_numch Ai).
+    repeat match goal with E : forallb numch _ = true |- _ => rewrite E; clear E end.
+    destruct neg; reflexivity. }
+  destruct s as [|c t]; [apply (G false [] H)|].
+  destruct (beqb c x2d); [apply (G true t H) | apply (G false (c :: t) H)].
+Qed.
+
+Definition ends_nws (t : bytes) : Prop := t <> [] /\ is_json_ws (last t x20) = false.
+
+Lemma last_cons_ne (c : byte) t d : t <> [] -> last (c :: t) d = last t d.
+Proof. destruct t; [congruence | reflexivity]. Qed.
+
+Lemma ends_nws_single c : is_json_ws c = false -> ends_nws [c].
+Proof. intro H. split; [discriminate | exact H]. Qed.
+Lemma ends_nws_cons c t : ends_nws t -> ends_nws (c :: t).
+Proof. intros [N L]. split; [discriminate | rewrite last_cons_ne by exact N; exact L]. Qed.
+Lemma ends_nws_app a t : ends_nws t -> ends_nws (a ++ t).
+Proof. intro H. induction a as [|c a IH]; [exact H | cbn [app]; apply ends_nws_cons, IH]. Qed.
+
+Lemma forallb_last (p : byte -> bool) l d : l <> [] -> forallb p l = true -> p (last l d) = true.
+Proof.
+  induction l as [|x l IH]; [congruence|]. intros _ H. cbn [forallb] in H.
+  apply andb_true_iff in H as [H1 H2]. destruct l as [|y l]; [exact H1|].
+  rewrite last_cons_ne by discriminate. apply IH; [discriminate | exact H2].
+Qed.
+
+Lemma numlex_ends_nws s l r : scan_number s = Some (l, r) -> ends_nws (numlex_bytes l).
+Proof.
+  intro H. pose proof (scan_number_nonempty _ _ _ H) as N. apply scan_number_chars in H.
+  split; [exact N|]. apply numch_nws. apply forallb_last; assumption.
+Qed.
+
+Lemma skip_str_ends s : forall t r, skip_str s = Some (t, r) -> ends_nws t.
+Proof.
+  induction s as [s IH] using bytes_len_ind. intros t r H.
+  destruct s as [|c s1]; [discriminate|]. rewrite skip_str_cons in H.
+  repeat step H; inv_some H.
+  all: repeat match goal with
+       | E : skip_str ?s' = Some (_, _) |- _ => apply IH in E; [| cbn [length]; lia]
+       end.
+  all: try (repeat apply ends_nws_cons; assumption).
+  apply beqb_true in E. subst c. apply ends_nws_single. reflexivity.
+Qed.
+
+Ltac ends_tac :=
+  cbn [unBS];
+  repeat first [ assumption
+               | apply ends_nws_single; reflexivity
+               | apply ends_nws_cons
+               | apply ends_nws_app ].
+
+Lemma skip_ends_all f :
+  (forall s t r, skip_value f s = Some (t, r) -> ends_nws t) /\
+  (forall s t r, skip_elems f s = Some (t, r) -> ends_nws t) /\
+  (forall s t r, skip_members f s = Some (t, r) -> ends_nws t).
+Proof.
+  induction f as [|f (IHv & IHe & IHm)]; [repeat split; intros; discriminate|].
+  repeat apply conj; intros s t r H.
+  - rewrite skip_value_S in H. cbv zeta in H. repeat step H; inv_some H.
+    all: repeat match goal with
+         | E : skip_str _ = Some _ |- _ => apply skip_str_ends in E
+         | E : scan_number _ = Some _ |- _ => apply numlex_ends_nws in E
+         | E : skip_elems _ _ = Some _ |- _ => apply IHe in E
+         | E : skip_members _ _ = Some _ |- _ => apply IHm in E
+         end.
+    all: beqb_norm; ends_tac.
+  - rewrite skip_elems_S in H. repeat step H; inv_some H.
+    all: repeat match goal with
+         | E : skip_elems _ _ = Some _ |- _ => apply IHe in E
+         end.
+    all: beqb_norm; ends_tac.
+  - rewrite skip_members_S in H. cbv zeta in H. repeat step H; inv_some H.
+    all: repeat match goal with
+         | E : skip_members _ _ = Some _ |- _ => apply IHm in E
+         end.
+    all: beqb_norm; ends_tac.
+Qed.
+
+Lemma skip_value_ends_nws f s t r : skip_value f s = Some (t, r) -> ends_nws t.
+Proof. apply skip_ends_all. Qed.
+
+Lemma parse_value_ends_nws f d s v : parse_value f d s = Some (v, []) -> ends_nws s.
+Proof.
+  intro H. apply strict_is_lenient in H as [t H]. pose proof (skip_value_split _ _ _ _ H) as E.
+  rewrite app_nil_r in E. subst t. apply (skip_value_ends_nws _ _ _ _ H).
+Qed.
+
+(* ---------- trailing whitespace may be trimmed before parsing ---------- *)
+
+Lemma skip_ws_nil_all r : skip_ws r = [] -> forallb is_json_ws r = true.
+Proof.
+  intro H. pose proof (ws_split r) as E. rewrite H, app_nil_r in E. rewrite <- E. apply ws_prefix_all.
+Qed.
+
+Lemma all_ws_skip r : forallb is_json_ws r = true -> skip_ws r = [].
+Proof.
+  intro H. pose proof (drop_while_app_stop is_json_ws r [] H eq_refl) as D.
+  rewrite app_nil_r in D. exact D.
+Qed.
+
+Lemma all_ws_ok_follow r : forallb is_json_ws r = true -> ok_follow r = true.
+Proof.
+  destruct r as [|b r]; [reflexivity|]. cbn. intro H. apply andb_true_iff in H as [H _].
+  rewrite (ws_not_num_cont b H). reflexivity.
+Qed.
+
+Lemma trim_suffix t : ends_nws t -> forall core w r,
+  forallb is_json_ws w = true -> forallb is_json_ws r = true -> core ++ w = t ++ r ->
+  exists r', core = t ++ r' /\ forallb is_json_ws r' = true.
+Proof.
+  induction t as [|x t IH]; intros [N L]; [congruence|]. intros core w r Hw Hr E.
+  destruct core as [|y core].
+  - exfalso. cbn [app] in E. subst w. change (x :: t ++ r) with ((x :: t) ++ r) in Hw. rewrite forallb_app in Hw. apply andb_true_iff in Hw as [Hw _].
+    pose proof (forallb_last is_json_ws (x :: t) x20 N Hw) as C. congruence.
+  - cbn [app] in E. injection E as -> E. destruct t as [|x' t].
+    + cbn [app] in E. exists core. split; [reflexivity|]. subst r.
+      rewrite forallb_app in Hr. apply andb_true_iff in Hr. tauto.
+    + assert (Ends' : ends_nws (x' :: t))
+        by (split; [discriminate | rewrite last_cons_ne in L by discriminate; exact L]).
+      destruct (IH Ends' core w r Hw Hr E) as (r' & -> & Hr').
+      exists r'. split; [reflexivity | exact Hr'].
+Qed.
+
+Theorem parse_text_trim raw core w j :
+  parse_text raw = Some j -> forallb is_json_ws w = true -> raw = core ++ w -> parse_text core = Some j.
+Proof.
+  unfold parse_text at 1. intros H Hw E.
+  destruct (parse_value (S (length raw)) depth_limit raw) as [[v rr]|] eqn:P; [|discriminate].
+  destruct (skip_ws rr) eqn:Wr; [|discriminate]. inv_some H.
+  apply skip_ws_nil_all in Wr.
+  destruct (parse_value_split _ _ _ _ _ P) as (t & Et & _).
+  pose proof (parse_value_trunc _ _ _ _ _ P t Et) as Pt.
+  pose proof (parse_value_ends_nws _ _ _ _ Pt) as Ends.
+  destruct (trim_suffix t Ends core w rr Hw Wr Et) as (r' & -> & Hr').
+  unfold parse_text.
+  pose proof (parse_value_fuel_len _ _ _ _ _ Pt (S (length (t ++ r')))) as Pt'.
+  rewrite (parse_value_extend _ _ _ _ _ r' (Pt' ltac:(rewrite app_length; cbn; lia))
+             (or_intror (all_ws_ok_follow r' Hr'))).
+  cbn [app]. rewrite (all_ws_skip r' Hr'). reflexivity.
+Qed.
+
+(* ---------- the last byte of a consumed span, explicitly ---------- *)
+
+(* digits, dot, e, E, plus, minus, double quote, closing bracket, closing brace, l  (e also closes true/false) *)
+Definition vend (c : byte) : bool :=
+  numch c || beqb c x22 || beqb c x5d || beqb c x7d || beqb c x6c.
+
+Definition ends_in (q : byte -> bool) (t : bytes) : Prop := t <> [] /\ q (last t x20) = true.
+
+Lemma ends_in_single q c : q c = true -> ends_in q [c].
+Proof. intro H. split; [discriminate | exact H]. Qed.
+Lemma ends_in_cons q c t : ends_in q t -> ends_in q (c :: t).
+Proof. intros [N L]. split; [discriminate | rewrite last_cons_ne by exact N; exact L]. Qed.
+Lemma ends_in_app q a t : ends_in q t -> ends_in q (a ++ t).
+Proof. intro H. induction a as [|c a IH]; [exact H | cbn [app]; apply ends_in_cons, IH]. Qed.
+
+Lemma vend_nws c : vend c = true -> is_json_ws c = false.
+Proof. intro H; byte_fact c H. Qed.
+Lemma vend_ascii c : vend c = true -> ascii c = true.
+Proof. intro H; byte_fact c H. Qed.
+Lemma numch_vend c : numch c = true -> vend c = true.
+Proof. intro H. unfold vend. rewrite H. reflexivity. Qed.
+
+Lemma ends_in_vend_nws t : ends_in vend t -> ends_nws t.
+Proof. intros [N L]. split; [exact N | apply vend_nws, L]. Qed.
+
+Lemma numlex_ends_vend s l r : scan_number s = Some (l, r) -> ends_in vend (numlex_bytes l).
+Proof.
+  intro H. pose proof (scan_number_nonempty _ _ _ H) as N. apply scan_number_chars in H.
+  split; [exact N|]. apply numch_vend. apply forallb_last; assumption.
+Qed.
+
+Lemma skip_str_ends_vend s : forall t r, skip_str s = Some (t, r) -> ends_in vend t.
+Proof.
+  induction s as [s IH] using bytes_len_ind. intros t r H.
+  destruct s as [|c s1]; [discriminate|]. rewrite skip_str_cons in H.
+  repeat step H; inv_some H.
+  all: repeat match goal with
+       | E : skip_str ?s' = Some (_, _) |- _ => apply IH in E; [| cbn [length]; lia]
+       end.
+  all: try (repeat apply ends_in_cons; assumption).
+  apply beqb_true in E. subst c. apply ends_in_single. reflexivity.
+Qed.
+
+Ltac ends_in_tac :=
+  cbn [unBS];
+  repeat first [ assumption
+               | apply ends_in_single; reflexivity
+               | apply ends_in_cons
+               | apply ends_in_app ].
+
+Lemma skip_ends_vend_all f :
+  (forall s t r, skip_value f s = Some (t, r) -> ends_in vend t) /\
+  (forall s t r, skip_elems f s = Some (t, r) -> ends_in vend t) /\
+  (forall s t r, skip_members f s = Some (t, r) -> ends_in vend t).
+Proof.
+  induction f as [|f (IHv & IHe & IHm)]; [repeat split; intros; discriminate|].
+  repeat apply conj; intros s t r H.
+  - rewrite skip_value_S in H. cbv zeta in H. repeat step H; inv_some H.
+    all: repeat match goal with
+         | E : skip_str _ = Some _ |- _ => apply skip_str_ends_vend in E
+         | E : scan_number _ = Some _ |- _ => apply numlex_ends_vend in E
+         | E : skip_elems _ _ = Some _ |- _ => apply IHe in E
+         | E : skip_members _ _ = Some _ |- _ => apply IHm in E
+         end.
+    all: beqb_norm; ends_in_tac.
+  - rewrite skip_elems_S in H. repeat step H; inv_some H.
+    all: repeat match goal with
+         | E : skip_elems _ _ = Some _ |- _ => apply IHe in E
+         end.
+    all: beqb_norm; ends_in_tac.
+  - rewrite skip_members_S in H. cbv zeta in H. repeat step H; inv_some H.
+    all: repeat match goal with
+         | E : skip_members _ _ = Some _ |- _ => apply IHm in E
+         end.
+    all: beqb_norm; ends_in_tac.
+Qed.
+
+Lemma skip_value_ends_vend f s t r : skip_value f s = Some (t, r) -> t <> [] /\ vend (last t x20) = true.
+Proof. apply skip_ends_vend_all. Qed.
+
+Lemma parse_value_ends_vend f d s v : parse_value f d s = Some (v, []) -> s <> [] /\ vend (last s x20) = true.
+Proof.
+  intro H. apply strict_is_lenient in H as [t H]. pose proof (skip_value_split _ _ _ _ H) as E.
+  rewrite app_nil_r in E. subst t. apply (skip_value_ends_vend _ _ _ _ H).
+Qed.
+
